@@ -111,6 +111,11 @@ def run(ctx):
     from .c16 import rule_ns_of_tag
     rule_ns_of_tag(ctx, mir, rid="R06.7")
 
+    # ------------------------------------------------------------------ R06.8 (shared with C04 R04.7)
+    # match ids must not depend on how many other selectors are registered
+    from .c04 import rule_absolute_indices
+    rule_absolute_indices(ctx, mir, rid="R06.8")
+
     ctx.not_decided += ["equality of event logs under handler sets H and H ∪ O as such (relation between two runs)"]
     return ("Rules on the hand-over between the tag scanner and the lexer: type-driven bookmark completeness, reset of sticky per-tag scratch on "
             "every continuing exit of finish_tag_name (CFG dominance), the stale-hint-flag protocol and once-per-tag tree-builder feedback.")
